@@ -7,6 +7,11 @@ HERE = os.path.dirname(os.path.dirname(os.path.abspath(__file__)))
 
 # id -> (level category, technique, level text, level note, design ref)
 CHECKS = {
+    'C04': ('exploration', 'history monitor: scripted claim/release/other/out histories on the compiled multi-client shell vs a sequential claim-holder model',
+            'Held on the histories of the run: every history of length <=3 (quick) / <=4 (thorough) over two clients enumerated on one program, '
+            'random histories of up to 30 operations with 1-5 clients on the others; per-client recorders decide who received each out-event.',
+            'A component that grants while another client holds the claim is judged leniently; mock runtime and scripted mock component are trusted.',
+            'DESIGN.md section 3 C04'),
     'C09': ('exploration', 'identity log (addresses of locator, dispatcher, runtime seen by the mock component vs shell members) over all 8 locator shapes; detection idiom for Locator()',
             'Held on the constructions of the run: every program constructed once per subset of {dispatcher, runtime, other service} in the user locator, under ASan+UBSan.',
             'The mock locator exposes its service map to the instrumented mock component; addresses are compared, not names.',
